@@ -37,6 +37,15 @@ def stepLine (d : D) (line : String) : D × String :=
     match ks.mapM String.toNat? with
     | some ks => ({ st := some (settled (start ks)), done := ks.isEmpty }, "ok")
     | none => (d, "bad-op")
+  | "zget" :: rest =>
+    -- zero-latency peer: Subscribe happens before want(), so what the peer publishes from inside want() is received
+    let ks := rest.takeWhile (· ≠ "/")
+    let hs := (rest.dropWhile (· ≠ "/")).drop 1
+    match ks.mapM String.toNat?, hs.mapM String.toNat? with
+    | some ks, some hs =>
+      let s := hs.foldl (fun s h => (step s (.publish h)).getD s) (start ks)
+      ({ st := some (settled s), done := ks.isEmpty }, "ok")
+    | _, _ => (d, "bad-op")
   | "net" :: _ => (d, "ok")
   | ["pub", c] =>
     match d.st, c.toNat? with
